@@ -239,7 +239,9 @@ func (s *Server) HandleDaemonConn(ctx context.Context, conn *Conn) (err error) {
 		if err != nil {
 			return err
 		}
-		flag = strings.TrimSpace(flag)
+		// Only the line terminator is not part of the argument: a path may
+		// begin or end with blanks.
+		flag = strings.TrimSuffix(flag, "\n")
 		s.logger.Printf("client sent: %q", flag)
 		if flag == "" {
 			break
